@@ -645,11 +645,13 @@ def install_arrays(reg: Registry):
     @H("xp.zeros")
     def zeros(i, a, k, n):
         assumed(i, "xp.zeros/ones: constant arrays")
+        i.path.event("alloc", "zeros", k.get("dtype", NONE))
         return const_arr(z3.RealVal(0), to_int(a[0]))
 
     @H("xp.ones")
     def ones(i, a, k, n):
         assumed(i, "xp.zeros/ones: constant arrays")
+        i.path.event("alloc", "ones", k.get("dtype", NONE))
         return const_arr(z3.RealVal(1), to_int(a[0]))
 
     @H("xp.full")
@@ -1142,6 +1144,28 @@ def install_builtins(reg: Registry):
     @H("print")
     def h_print(i, a, k, n):
         return NONE
+
+    @H("math.isclose")
+    def h_isclose(i, a, k, n):
+        x, y = to_real(a[0]), to_real(a[1])
+        rt = to_real(k["rel_tol"]) if isinstance(k.get("rel_tol"), Z) else z3.RealVal("1e-9")
+        at = to_real(k["abs_tol"]) if isinstance(k.get("abs_tol"), Z) else z3.RealVal(0)
+        ab = lambda v: z3.If(v >= 0, v, -v)  # noqa: E731
+        mx = z3.If(ab(x) >= ab(y), ab(x), ab(y))
+        lim = z3.If(rt * mx >= at, rt * mx, at)
+        return Z(ab(x - y) <= lim, "bool")
+
+    @H("round")
+    def h_round(i, a, k, n):
+        # round(x[, ndigits]): some number close to x, not x itself (uninterpreted: only |round(x, d) - x| <= 1/2 is recorded for d >= 0)
+        x = a[0]
+        if not isinstance(x, Z):
+            raise Unsupported("round of a non-number")
+        nd = a[1] if len(a) > 1 else k.get("ndigits", NONE)
+        f = uf("py_round", RS, IS, RS)
+        r = f(to_real(x), to_int(nd) if isinstance(nd, Z) else z3.IntVal(0))
+        i.path.assume(z3.And(r - to_real(x) <= z3.RealVal("1/2"), to_real(x) - r <= z3.RealVal("1/2")), check=False)
+        return Z(r, "real") if isinstance(nd, Z) else Z(z3.ToInt(r), "int")
 
     @H("slice")
     def h_slice(i, a, k, n):
